@@ -162,6 +162,14 @@ fn pass0_internal(
                                 context.add_segment(segment.clone());
                             }
                         }
+                        if context.last_segment().unwrap().borrow().t != SegmentType::Code {
+                            // the calling code goes on in the code segment
+                            context.add_segment(Segment {
+                                address: 0,
+                                t: SegmentType::Code,
+                                items: vec![],
+                            });
+                        }
                     }
                 }
                 _ => {
